@@ -170,7 +170,9 @@ def stub_union_duplicates(s: Any) -> str | None:
     if k == "union":
         members = [ref.canon_stub_type(m) for m in s[1]]
         if len(members) != len(set(members)):
-            return type_to_str(s)
+            texts = [type_to_str(m) for m in s[1]]
+            # members that are equal types but spelled differently (nested literal / union members in another order)
+            return type_to_str(s) + ("" if len(texts) != len(set(texts)) else " [members equal up to the order of nested literal/union members]")
         for m in s[1]:
             d = stub_union_duplicates(m)
             if d:
@@ -225,7 +227,7 @@ def judge(case: dict) -> dict:
             return
         dup = stub_union_duplicates(raw) if raw is not None else None
         if dup:
-            discs.append(Discrepancy.make("union_has_duplicates", el, f"stub type {dup} lists a member twice", tags))
+            discs.append(Discrepancy.make("union_has_duplicates", el, f"stub type {dup} lists a member twice", tags + (["union:duplicate_up_to_nested_order"] if dup.endswith("members]") else [])))
         if got != expect:
             discs.append(Discrepancy.make("type_differs", el, f"stub {ref.show(got) if not isinstance(got, list) else [ref.show(g) for g in got]} != reference {ref.show(expect) if not isinstance(expect, list) else [ref.show(g) for g in expect]}", tags))
 
